@@ -95,6 +95,7 @@ class Tables:
         self.tree = tree
         self.mod = {}      # NAME -> literal
         self.cls = {}      # (Class, NAME) -> literal
+        self.exprs = {}    # NAME -> pure constant expression (struct.pack('<fmt>', 0)): inlined by name, never a table
         fnames = {n.name for n in tree.body if isinstance(n, ast.FunctionDef)}
         cands = []
         for s in tree.body:
@@ -113,13 +114,23 @@ class Tables:
         for clsname, nm, lit, tgt in cands:
             if nm in bad or count[(clsname, nm)] != 1:
                 continue
-            if clsname is None:
+            if clsname is None and getattr(lit, '_pure_expr', False):
+                self.exprs[nm] = lit
+            elif clsname is None:
                 self.mod[nm] = lit
             else:
                 self.cls[(clsname, nm)] = lit
 
     @staticmethod
     def _cand(s, clsname, out, fnames):
+        if isinstance(s, ast.Assign) and len(s.targets) == 1 and isinstance(s.targets[0], ast.Name) and clsname is None and s.targets[0].id.isupper() \
+                and isinstance(s.value, ast.Call) and not s.value.keywords and len(s.value.args) >= 2 \
+                and all(isinstance(a, ast.Constant) and type(a.value) in (int, str, bytes) for a in s.value.args) and isinstance(s.value.args[0].value, str):
+            f = s.value.func
+            if (isinstance(f, ast.Name) and f.id == 'pack') or (isinstance(f, ast.Attribute) and f.attr == 'pack' and isinstance(f.value, ast.Name) and f.value.id == 'struct'):
+                s.value._pure_expr = True                                        # NAME = struct.pack('!I', 0): a named constant byte string
+                out.append((clsname, s.targets[0].id, s.value, s.targets[0]))
+                return
         if isinstance(s, ast.Assign) and len(s.targets) == 1 and isinstance(s.targets[0], ast.Name) and clsname is None \
                 and isinstance(s.value, ast.Constant) and not s.targets[0].id.startswith('__') and s.targets[0].id.isupper():
             out.append((clsname, s.targets[0].id, s.value, s.targets[0]))       # NAME = 10 / 'text': a named scalar
@@ -129,6 +140,7 @@ class Tables:
             if isinstance(v, (ast.Dict, ast.Tuple, ast.List, ast.Set)) and _lit_ok(s.value, fnames):
                 n = len(v.keys) if isinstance(v, ast.Dict) else len(v.elts)
                 if 0 < n <= MAX:
+                    v._raw = s.value           # the expression as written (frozenset([...]) / dict({...})) for name inlining
                     out.append((clsname, s.targets[0].id, v, s.targets[0]))
 
     def lookup(self, e, clsname):
@@ -186,15 +198,100 @@ def _simple_key(e):
     return False
 
 
+class _StructCodecs(ast.NodeTransformer):
+    """A precompiled codec `NAME = struct.Struct('<fmt>')` at module or class level (never rebound) is the format string under another
+    name: NAME.pack(a, ..) -> struct.pack('<fmt>', a, ..), NAME.unpack(b) -> struct.unpack('<fmt>', b), likewise pack_into / unpack_from /
+    iter_unpack; NAME.size -> calcsize('<fmt>') as a constant, NAME.format -> '<fmt>'.  The defining assignment stays."""
+    METHODS = ('pack', 'unpack', 'pack_into', 'unpack_from', 'iter_unpack')
+
+    def __init__(self, tree):
+        self.mod, self.cls = {}, {}
+        cands = []
+        for s in tree.body:
+            self._cand(s, None, cands)
+            if isinstance(s, ast.ClassDef):
+                for t in s.body:
+                    self._cand(t, s.name, cands)
+        if cands:
+            names = {c[1] for c in cands}
+            bad = mutated_names(tree, names, {id(c[3]) for c in cands}, dynamic={c[1] for c in cands if c[0] is not None})
+            count = {}
+            for c in cands:
+                count[(c[0], c[1])] = count.get((c[0], c[1]), 0) + 1
+            for clsname, nm, fmt, tgt in cands:
+                if nm in bad or count[(clsname, nm)] != 1:
+                    continue
+                if clsname is None:
+                    self.mod[nm] = fmt
+                else:
+                    self.cls[(clsname, nm)] = fmt
+        self.clsname = None
+
+    @staticmethod
+    def _cand(s, clsname, out):
+        if isinstance(s, ast.Assign) and len(s.targets) == 1 and isinstance(s.targets[0], ast.Name) and isinstance(s.value, ast.Call) and not s.value.keywords \
+                and len(s.value.args) == 1 and isinstance(s.value.args[0], ast.Constant) and isinstance(s.value.args[0].value, str):
+            f = s.value.func
+            if (isinstance(f, ast.Name) and f.id == 'Struct') or (isinstance(f, ast.Attribute) and f.attr == 'Struct' and isinstance(f.value, ast.Name) and f.value.id == 'struct'):
+                import struct
+                try:
+                    struct.calcsize(s.value.args[0].value)
+                except struct.error:
+                    return
+                out.append((clsname, s.targets[0].id, s.value.args[0].value, s.targets[0]))
+
+    def fmt_of(self, e):
+        if isinstance(e, ast.Name) and isinstance(e.ctx, ast.Load):
+            return self.mod.get(e.id)
+        if isinstance(e, ast.Attribute) and isinstance(e.value, ast.Name):
+            if e.value.id in ('self', 'cls') and self.clsname:
+                return self.cls.get((self.clsname, e.attr))
+            return self.cls.get((e.value.id, e.attr))
+        return None
+
+    def visit_ClassDef(self, node):
+        old, self.clsname = self.clsname, node.name
+        self.generic_visit(node)
+        self.clsname = old
+        return node
+
+    def visit_Call(self, node):
+        self.generic_visit(node)
+        f = node.func
+        if isinstance(f, ast.Attribute) and f.attr in self.METHODS:
+            fmt = self.fmt_of(f.value)
+            if fmt is not None:
+                fn = ast.Attribute(value=ast.Name(id='struct', ctx=ast.Load()), attr=f.attr, ctx=ast.Load())
+                new = ast.Call(func=fn, args=[ast.Constant(value=fmt)] + node.args, keywords=node.keywords)
+                for x in ast.walk(new):
+                    if not hasattr(x, 'lineno'):
+                        ast.copy_location(x, node)
+                return ast.copy_location(new, node)
+        return node
+
+    def visit_Attribute(self, node):
+        self.generic_visit(node)
+        if node.attr in ('size', 'format') and isinstance(node.ctx, ast.Load):
+            fmt = self.fmt_of(node.value)
+            if fmt is not None:
+                import struct
+                return ast.copy_location(ast.Constant(value=struct.calcsize(fmt) if node.attr == 'size' else fmt), node)
+        return node
+
+
 class Expander:
     def __init__(self, tree):
+        sc = _StructCodecs(tree)
+        if sc.mod or sc.cls:
+            sc.visit(tree)
+            _ConstStrings().visit(tree)
         self.t = Tables(tree)
         self.tree = tree
         self.n = 0
 
     def run(self):
         _Getattr().visit(self.tree)
-        if self.t.mod or self.t.cls:
+        if self.t.mod or self.t.cls or self.t.exprs:
             self.scope(self.tree.body, None)
             self.inline_names()
             _Getattr().visit(self.tree)
@@ -206,6 +303,7 @@ class Expander:
         """a plain read of a module-level constant (a literal that is never rebound or mutated: `ALL_TYPES = (A, B)`, `TABLE_ARGS = {...}`,
         `TIMEOUT = 10`) is replaced by a copy of the literal - naming a literal changes nothing.  Not inside scopes that bind the name."""
         consts = {k: v for k, v in self.t.mod.items() if self._size(v) <= 40}
+        consts.update(self.t.exprs)
         if not consts:
             return
         defs = set()
@@ -241,7 +339,7 @@ class Expander:
 
             def visit_Name(self_, node):
                 if isinstance(node.ctx, ast.Load) and node.id in consts and not any(node.id in sh for sh in self_.shadow):
-                    new = copy.deepcopy(consts[node.id])
+                    new = copy.deepcopy(getattr(consts[node.id], '_raw', consts[node.id]))
                     for x in ast.walk(new):
                         ast.copy_location(x, node)
                     return new
@@ -506,7 +604,55 @@ class _Getattr(ast.NodeTransformer):
 
 
 def expand_tables(tree):
-    return Expander(tree).run()
+    tree = Expander(tree).run()
+    _SplitWrites().run(tree)
+    return tree
+
+
+class _SplitWrites:
+    """`S.write(A + B)` as a statement appends A then B to the stream S: it is `S.write(A); S.write(B)` (S a name or an attribute chain
+    over a name).  One spelling for `ostream.write(pack(f, v) + PAD)` and the two writes it abbreviates."""
+
+    @staticmethod
+    def _pure_recv(e):
+        while isinstance(e, ast.Attribute):
+            e = e.value
+        return isinstance(e, ast.Name)
+
+    def parts(self, e):
+        if isinstance(e, ast.BinOp) and isinstance(e.op, ast.Add):
+            return self.parts(e.left) + self.parts(e.right)
+        return [e]
+
+    def run(self, tree):
+        for n in ast.walk(tree):
+            for fld in ('body', 'orelse', 'finalbody'):
+                v = getattr(n, fld, None)
+                if isinstance(v, list) and v and isinstance(v[0], ast.stmt):
+                    setattr(n, fld, self.block(v))
+            if isinstance(n, ast.Try):
+                for h in n.handlers:
+                    h.body = self.block(h.body)
+
+    def block(self, stmts):
+        out = []
+        for s in stmts:
+            c = s.value if isinstance(s, ast.Expr) else None
+            if isinstance(c, ast.Call) and isinstance(c.func, ast.Attribute) and c.func.attr == 'write' and self._pure_recv(c.func.value) and len(c.args) == 1 and not c.keywords \
+                    and isinstance(c.args[0], ast.BinOp) and isinstance(c.args[0].op, ast.Add):
+                ps = self.parts(c.args[0])
+                # only byte-string building blocks: calls and byte constants (never arithmetic on numbers)
+                if all(isinstance(p_, ast.Call) or (isinstance(p_, ast.Constant) and isinstance(p_.value, (bytes, str))) for p_ in ps):
+                    for p_ in ps:
+                        call = ast.Call(func=copy.deepcopy(c.func), args=[p_], keywords=[])
+                        st_ = ast.Expr(value=call)
+                        for x in (call, st_):
+                            ast.copy_location(x, p_)
+                        ast.fix_missing_locations(st_)
+                        out.append(st_)
+                    continue
+            out.append(s)
+        return out
 
 
 class _Simplify(ast.NodeTransformer):
